@@ -653,7 +653,9 @@ def norm_sql(txt):
     txt = re.sub(r"\s+", " ", txt).strip()
     out, i = [], 0
     while True:
-        m = re.compile(r"CREATE (?:\S+ )*?TABLE ").search(txt, i)
+        # the words between CREATE and TABLE are table prefixes: never a token of another statement (an earlier CREATE INDEX
+        # ... (expr) ; ALTER TABLE must not be taken for the start), so no parenthesis and no statement separator in them
+        m = re.compile(r"CREATE (?:[^\s;/()]+ )*?TABLE ").search(txt, i)
         if not m:
             out.append(txt[i:])
             break
